@@ -7,6 +7,7 @@ from hypothesis import strategies as st
 from vf.harness import Check
 from vf.gen import lens as GL
 from vf.gen.build import build
+from vf.gen.edit import edit_strategy, build_with_history, warm_all
 
 IMG = GL.Profile(max_surfs=6, shapes=['standard', 'standard', 'even_asphere'], allow_mirror=False, keep_edges=True,
                  rho_min=2.5, steep_prob=0.0, ap_types=['EPD', 'imageFNO', 'objectNA'], max_field_deg=10.0,
@@ -104,12 +105,30 @@ class C09(Check):
     def strategy(self, tier):
         return st.fixed_dictionaries(dict(spec=GL.lens_spec(IMG, min_surfs=2), dist=st.sampled_from(DISTS),
                                           n=st.integers(0, 60), fld=st.integers(0, 5), wl=st.integers(0, 3),
-                                          extras=st.booleans()))
+                                          extras=st.booleans(),
+                                          edit=edit_strategy(('index', 'radius', 'thickness', 'conic'), p_none=4)))
 
     def describe(self, case):
         s = case['spec']
         return dict(dist=case['dist'], n=case['n'], fld=case['fld'], obj=s['obj'], ap=s['ap'], ftype=s['ftype'],
                     fields=[f['y'] for f in s['fields']], img=s['img'], nsurf=len(s['surfs']))
+
+    def maybe_draw(self, case, out, obj):
+        """For one case in two the analysis object is drawn (view(), Agg; maps in 2d or 3d) before its values are read:
+        what it reports must not depend on whether it has been looked at."""
+        if case['n'] % 2 != 0:
+            return
+        import matplotlib.pyplot as plt
+        try:
+            if type(obj).__name__ in ('OPD', 'ZernikeOPD'):
+                obj.view(projection='2d' if case['n'] % 4 == 0 else '3d')
+            else:
+                obj.view()
+            out.cls('drawn_before_reading')
+        except Exception:  # noqa   (a figure of undefined data is not part of the property)
+            out.cls('view_raised')
+        finally:
+            plt.close('all')
 
     def check(self, case, out):
         from optiland.wavefront import Wavefront
@@ -122,7 +141,15 @@ class C09(Check):
             spec['ftype'] = 'object_height'
             spec['fields'] = [dict(f, y=float(ps0.t_obj) * math.tan(math.radians(f['y']))) for f in spec['fields']]
         out.cls(*GL.spec_classes(spec))
-        o = build(spec)
+        # optionally the lens is queried (paraxial data, traces, a wavefront), edited through the public setters and only
+        # then analysed: everything below is judged against the prescription the Optic has *now*
+        def warm(o_):
+            warm_all(o_)
+            Wavefront(o_, fields=[o_.fields.get_field_coords()[-1]], wavelengths=[o_.primary_wavelength], num_rays=3,
+                      distribution='hexapolar')
+        o, spec, edited = build_with_history(spec, case.get('edit'), warm, keep_image_medium=True)
+        if edited:
+            out.cls('analysed_after_' + case['edit']['kind'] + '_edit')
         ps = GL.parax_sys(spec)
         w = spec['wls'][case['wl'] % len(spec['wls'])]
         flds = o.fields.get_field_coords()
@@ -201,6 +228,7 @@ class C09(Check):
         from optiland import distribution as D
         rings = 2 + case['n'] % 3
         opd = OPD(o, (Hx, Hy), w, num_rings=rings)
+        self.maybe_draw(case, out, opd)
         hx = D.create_distribution('hexapolar')
         hx.generate_points(rings)
         Wh = np.asarray(Wavefront(o, [(Hx, Hy)], [w], None, hx).data[0][0][0], dtype=float)
@@ -208,6 +236,7 @@ class C09(Check):
         out.close('opd_rms', float(opd.rms()), math.sqrt(float(np.mean(Wh ** 2))), rtol=1e-12, atol=1e-15)
         nfan = 5 + case['n'] % 6
         fan = OPDFan(o, fields=[(Hx, Hy)], wavelengths=[w], num_rays=nfan)
+        self.maybe_draw(case, out, fan)
         cr = D.create_distribution('cross')
         cr.generate_points(nfan)
         Wc = np.asarray(Wavefront(o, [(Hx, Hy)], [w], None, cr).data[0][0][0], dtype=float)
@@ -221,6 +250,7 @@ class C09(Check):
         except ValueError:
             pass
         if zo is not None:
+            self.maybe_draw(case, out, zo)
             out.close('zernike_input_is_opd', np.asarray(zo.z, dtype=float), Wh, atol=1e-12, rtol=1e-12)
         # RMS wavefront error versus field: fields (0, Hy) for Hy in linspace(0,1,n), all wavelengths, hexapolar
         nfl, nr = 3, 2
